@@ -119,17 +119,22 @@ def unquote(
     quote_netloc_lookalikes=False,
 ):
     if "%" not in string:
-        if normalize_space:
-            return string.replace(" ", "%20")
-
-        return string
-
-    q = "".join(
-        _generate_unquoted_parts(string, only_printable=only_printable, unsafe=unsafe)
-    )
+        q = string
+    else:
+        q = "".join(
+            _generate_unquoted_parts(
+                string, only_printable=only_printable, unsafe=unsafe
+            )
+        )
 
     if normalize_space:
         q = q.replace(" ", "%20")
+
+    # NOTE: a non-printable character found raw must end up written the same
+    # way as one found quoted, which the lines above kept quoted
+    if only_printable:
+        q = C1_CONTROL_CHARS_RE.sub(quote_match, q)
+        q = UNICODE_SPACES_RE.sub(quote_match, q)
 
     # NOTE: urlsplit refuses a netloc containing characters whose NFKC form
     # holds a netloc delimiter (e.g. a fullwidth "@"), so they must stay quoted
